@@ -88,6 +88,11 @@ def gen(seed, tier):
     knobs["horizon"] = 60.0
     rng.shuffle(payloads)
     drivers = [{"id": "d0", "script": dscript}]
+    if rng.random() < 0.15:
+        # payloads parked on an awaitable nobody else references, and a collection on some other thread
+        for fl_ in rng.sample(["asyncio", "trio"], rng.choice([1, 2])):
+            payloads.append({"id": "parked-" + fl_, "flavour": fl_, "via": rng.choice(["queued", "service-pre"]), "steps": [["park"]], "cleanup_sync": 2})
+        drivers.append({"id": "dgc", "script": [["wait-running"], ["sleep", rng.choice([0.3, 1.0, 1.5])], ["gc"], ["sleep", 0.5], ["gc"]]})
     if rng.random() < 0.12:
         # other runners try to accept while this one is active: each attempt is refused, so there is
         # still one event loop and one trio run for everything created afterwards
@@ -164,6 +169,17 @@ def check(h, reason):
     bad = ctxs["threading"] & loop_sids
     if bad:
         V("C11/thread-payload-on-loop-thread", "thread payloads ran on loop threads %r" % sorted(bad))
+    # 2b. every line of a coroutine payload - clean-up in finally blocks included - runs on the thread of
+    #     its flavour (a payload finalised by the garbage collector runs its clean-up wherever that
+    #     collection happens to take place)
+    home = {fl: {c[1] for c in ctxs[fl]} for fl in ("asyncio", "trio")}
+    for e in ev:
+        pid_ = e.get("pid")
+        if pid_ in specs and specs[pid_]["flavour"] in ("asyncio", "trio") and e["kind"] in ("hb", "step", "cleanup-step", "finished", "destroyed", "cancelled", "blocking"):
+            fl_ = specs[pid_]["flavour"]
+            if home[fl_] and e["sid"] not in home[fl_]:
+                V("C11/payload-code-on-foreign-thread/%s" % fl_, "%s payload %s executed '%s' on sim thread %s; %s payloads live on thread(s) %r" % (fl_, pid_, e["kind"], e["sid"], fl_, sorted(home[fl_])))
+                break
     # 3. heartbeats keep ticking while thread payloads block
     late = 0
     nticks = 0
